@@ -6,7 +6,9 @@ FIX_COMMITS = ["d6ae502 (passive start-up cancellation: port/listener leak)",
                "e81490a (EPSV arg / PASV-on-IPv6 replies closed the session)",
                "e3fcd28 (REST offset applied to every following transfer)",
                "238797d (MemoryPathIO r+b created missing files)",
-               "eae4544 (MemoryPathIO.rename lost the source)"]
+               "eae4544 (MemoryPathIO.rename lost the source)",
+               "826c080 (Windows-flavour base path escape via backslash segments)",
+               "b5dacba (STOR/APPE on the virtual root probed the parent of the base directory)"]
 
 ENV_NOTE = ("Trusted base: the environment model (vf/simloop.py: selector, TCP, clock, executor) and the harness-side "
             "oracles; the code explored is the unmodified aioftp imported from /repo/src. Bounds are stated in the "
@@ -87,6 +89,30 @@ CHECKS = [
              "explored breadth-first on PathIO vs AsyncPathIO (result-or-failure and tree).",
      "design_ref": "DESIGN.md §5 C18", "note": ENV_NOTE,
      "technique": "explicit-state relational BFS: the same histories executed on three implementations and compared"},
+    {"property_id": "C02", "level": "model_checking",
+     "text": "Function level: Server.get_paths evaluated for every path string of <= 3 (thorough 4) segments over a "
+             "14-symbol segment alphabet with 4 slash prefixes and optional trailing slash, from each of the 15 reachable "
+             "working directories, for 5 POSIX base paths and a Windows-flavour base, against an independent resolver and a "
+             "lexical containment oracle. Wire level: 12 path-taking verbs x 6 CWD/CDUP histories x every short path "
+             "string on a spy backend rooted at /base inside a larger file system: no backend call may name a path "
+             "outside the base, nothing outside may change, replies/PWD/cwd follow the reference model.",
+     "design_ref": "DESIGN.md §5 C02", "note": ENV_NOTE,
+     "technique": "bounded-exhaustive input enumeration against an independent oracle + explicit-state histories on the implementation"},
+    {"property_id": "C03", "level": "model_checking",
+     "text": "BFS over login histories (USER x5, PASS x3, state-carrying verbs) for three user tables to depth 4 "
+             "(thorough 6), de-duplicated on login state; from every distinct state all 24 verbs are probed in upper, "
+             "lower and mixed case. Every step is compared with the reference model and, while not logged in, with the "
+             "oracle: no 1xx/2xx/3xx for guarded verbs, zero spy-backend calls, no new listener.",
+     "design_ref": "DESIGN.md §5 C03", "note": ENV_NOTE,
+     "technique": "explicit-state BFS over command histories with the implementation as transition function + reference model + spy backend"},
+    {"property_id": "C04", "level": "model_checking",
+     "text": "Function level: User.get_permissions on all 8421 ordered tables of <= 3 entries (5 paths x 4 readable/"
+             "writable combinations, duplicates allowed) x every query path of depth <= 3 (thorough 4), against a longest-"
+             "prefix oracle. Wire level: 7 nesting-pattern tables x 13 permission-checked verbs x 14 targets x 3 cwds x up "
+             "to 8 alias spellings ('..' detours through differently-permitted directories, relative forms, doubled and "
+             "trailing slashes), compared with the reference model (550 on denial, tree/cwd/pending rename unchanged).",
+     "design_ref": "DESIGN.md §5 C04", "note": ENV_NOTE,
+     "technique": "bounded-exhaustive input enumeration against an independent oracle + exhaustive wire cases against a reference model"},
 ]
 
 _ALL = [f"C{i:02d}" for i in range(1, 21)]
